@@ -1256,8 +1256,13 @@ def explore(
     witness: bool = True,
     solver: str = "z3",
     cross_check: bool = False,
+    max_fidelity: int | None = None,
+    fidelity_stride: int = 25,
 ) -> dict:
-    """Run ``fn`` on every feasible path.  Returns a result dictionary (picklable)."""
+    """Run ``fn`` on every feasible path.  Returns a result dictionary (picklable).
+
+    ``max_fidelity``: path-witness replays beyond this number are thinned to every ``fidelity_stride``-th path (the replays validate
+    the encoding; the verdicts come from the solver on every path)."""
     global _CURRENT
     sh = Exploration(max_paths, max_seconds, solver_timeout_ms, seed, logic)
     sh.dump_smt = True if dump_smt else None
@@ -1339,7 +1344,8 @@ def explore(
                         }
                         if len(res["witnesses"]) < sh.max_paths:
                             res["witnesses"].append(w)
-                        if on_path is not None:
+                        res["fidelity"]["candidates"] = res["fidelity"].get("candidates", 0) + 1
+                        if on_path is not None and (max_fidelity is None or res["fidelity"]["run"] < max_fidelity or res["fidelity"]["candidates"] % fidelity_stride == 0):
                             _CURRENT = None
                             try:
                                 ok, detail = on_path(w)
